@@ -141,6 +141,9 @@ func runTree(c treeCase) (r treeResult) {
 			if n.Bare {
 				break
 			}
+			if idx == 0 && o.Names == c.Version {
+				continue // the application's own flag of that name is the one Version() declared
+			}
 			l := new([]string)
 			logs[path]["O:"+optKey(o.Names)] = l
 			cmd.Var(cli.VarOpt{Name: o.Names, Value: &rec{flag: o.Flag, log: l}})
